@@ -53,6 +53,10 @@ else:
 # FLAG_REF is the marshal.c name
 FLAG_REF = 0x80
 
+# What TYPE_NULL ('0') reads as.  It terminates a dict and is distinct
+# from None, which is a legitimate dict key or value.
+_NULL = object()
+
 
 # The keys in the following dictionary are unmarshal codes, like "s",
 # "c", "<", etc. The values of the dictionary are names of routines
@@ -241,7 +245,7 @@ class _VersionIndependentUnmarshaller:
     # In C this NULL. Not sure what it should
     # translate here. Note NULL != None which is below
     def t_C_NULL(self, save_ref, bytes_for_s=False):
-        return None
+        return _NULL
 
     def t_None(self, save_ref, bytes_for_s=False):
         return None
@@ -431,10 +435,10 @@ class _VersionIndependentUnmarshaller:
         # dictionary
         while True:
             key = self.r_object(bytes_for_s=bytes_for_s)
-            if key is None:
+            if key is _NULL:
                 break
             val = self.r_object(bytes_for_s=bytes_for_s)
-            if val is None:
+            if val is _NULL:
                 break
             ret[key] = val
             pass
